@@ -10,12 +10,12 @@ PROPERTIES = ["C19"]
 MANIFEST = {
     "C19": {
         "technique": "Lean 4 proof about (a) a model of the path scanners of File.cpp with a stack-machine denotation of path strings and (b) a model of the File/Directory algorithms over an assumed POSIX-like world (flat tree: directory | file bytes | symbolic link) + differential correspondence model vs real File.cpp/Directory.cpp (exhaustive small strings; scratch-directory snapshots with an outside sentinel, interposed sendfile/mkdir faults, ASan/UBSan) + independent Python reference (own stack machine cross-checked with posixpath; own kernel-like resolver and byte-array file semantics evaluating the laws of C19 on the implementation's observations)",
-        "text": "Theorems for ALL path strings: simplifyPath returns the canonical text of the denotation (hence idempotent, denotation preserving, deciding lexical equivalence), directory+separator+base name and stem+'.'+extension recompose, getRelativePath(from,to) appended to from denotes to exactly when a relative path exists lexically and is empty otherwise (the hypothesis is proved necessary). Theorems for ALL worlds / path strings / injected faults of the file-system model: scripts of write/seek/readAll/size on a File refine a byte array with position; File::open(write[|append]) + writes + File::readAll(path) returns exactly the written bytes (after the old ones when appending); successful copy and rename carry exactly the bytes, and they do succeed when nothing is in the way (copy_succeeds, rename_succeeds); failed open/rename/copy (without an injected transfer fault) leave the tree unchanged; failed open/rename/copy leave no new entry (copy: except a transfer fault through a symlinked destination, spelled out); Directory::create returns true iff the directory exists afterwards, then all parents exist, it only adds directories, and it succeeds when only directories are in the way; Directory::unlink on EVERY path string only removes entries inside the directory the path resolves to (never follows a symbolic link of the tree; nothing changes when the path does not name a directory), and recursive unlink of an existing plain directory in a well-formed world succeeds and removes exactly the tree; every history of operations (the driver's state transitions are the proved `fsApply`) keeps the world well-formed (wf_run), so these hold after any history; Directory::read lists exactly the entries; rename of a directory moves exactly its subtree; on the POSIX build a backslash is a separator for the path functions (backslash_is_separator). The models are tied to the current sources on every run by executing identical op lines on model and real code.",
-        "note": "Trusted: Lean kernel + propext/Classical.choice/Quot.sound; the hand translation of File.cpp/Directory.cpp (POSIX branches, with fixes/path/*.patch applied) into Nstd/Path/Model.lean and FsLib.lean (validated by the correspondence run, not proved); the POSIX semantics of mkdir/rmdir/unlink/rename/open/readdir/stat/lstat/lseek/read/write/sendfile/symlink is ASSUMED: it is the Lean definition in Nstd/Path/Fs.lean and is compared with the real kernel (ext4/tmpfs under $TMPDIR) only through the snapshots of the correspondence run. Hypotheses of the unlink theorems: a plain path to the directory (its parent chain consists of real directories; links INSIDE the tree are arbitrary) and a well-formed world (names are names, no path stored twice, parents are directories) — the latter is proved for every history (wf_run) and additionally checked on every model state the run reaches; the model keeps the working directory and its ancestors (rmdir/rename of them are rejected), plain path (its parent chain consists of real directories; links INSIDE the tree are arbitrary). Only tested by the correspondence, not proved: File::exists/Directory::exists results, the harness-side fault interposition. The assumed kernel splits path strings at '/' only (a backslash is part of a name; Directory::create as repaired by fix 0010 does the same on POSIX) and rmdir answers EINVAL/ENOTEMPTY for a last component '.'/'..'. Outside: permissions, d_type == DT_UNKNOWN file systems, hard links, files unlinked/renamed while open, concurrent modification, Windows branches, paths climbing above the scratch world, getAbsolutePath/time/isExecutable.",
+        "text": "Theorems for ALL path strings: simplifyPath returns the canonical text of the denotation (hence idempotent, denotation preserving, deciding lexical equivalence), directory+separator+base name and stem+'.'+extension recompose, getRelativePath(from,to) appended to from denotes to exactly when a relative path exists lexically and is empty otherwise (the hypothesis is proved necessary). Theorems for ALL worlds / path strings / injected faults of the file-system model: scripts of write/seek/readAll/size on a File refine a byte array with position; File::open(write[|append]) + writes + File::readAll(path) returns exactly the written bytes (after the old ones when appending); successful copy and rename carry exactly the bytes, and they do succeed when nothing is in the way (copy_succeeds, rename_succeeds); failed open/rename/copy (without an injected transfer fault) leave the tree unchanged; failed open/rename/copy leave no new entry (copy: except a transfer fault through a symlinked destination, spelled out); Directory::create returns true iff the directory exists afterwards, then all parents exist, it only adds directories, and it succeeds when only directories are in the way; Directory::unlink on EVERY path string only removes entries inside the directory the path resolves to (never follows a symbolic link of the tree; nothing changes when the path does not name a directory), and recursive unlink of an existing plain directory in a well-formed world succeeds and removes exactly the tree; every history of operations (the driver's state transitions are the proved `fsApply`) keeps the world well-formed (wf_run), so these hold after any history; Directory::read lists exactly the entries; rename of a directory moves exactly its subtree; on the POSIX build a backslash is a separator for the path functions (backslash_is_separator). Extension round: the decompositions getDirectoryName/getBaseName and getStem/getExtension return are the only ones of their shape (dir_base_unique, stem_ext_unique); File::read(buffer, n) is part of the proved File script; File::exists / Directory::exists / File::time answer exactly what the world has (exists_truthful, exists_plain, exists_consistent); getAbsolutePath(p) resolves to what p resolves to, also from the working directory after Directory::change (absolute_path_truthful, change_then_absolute_truthful); Directory::unlink with ANY d_type reporting of readdir (DT_UNKNOWN oracle, repaired code asks lstat) only removes entries inside the directory the path resolves to and keeps the world well-formed (unlink_any_dtype_stays_in_resolved_tree), and is the proved Directory::unlink when the type is reported; the hand-written wildcard matcher szWildMatch7 of Directory.cpp decides the declarative glob semantics (= segmentation of the name) for all patterns and names and terminates (szWildMatch7_is_glob, szWildMatch7_terminates), the fnmatch model used for the POSIX branch decides the same semantics (fnmatch_model_is_glob). The models are tied to the current sources on every run by executing identical op lines on model and real code.",
+        "note": "Trusted: Lean kernel + propext/Classical.choice/Quot.sound; the hand translation of File.cpp/Directory.cpp (POSIX branches, with fixes/path/*.patch applied) into Nstd/Path/Model.lean and FsLib.lean (validated by the correspondence run, not proved); the POSIX semantics of mkdir/rmdir/unlink/rename/open/readdir/stat/lstat/lseek/read/write/sendfile/symlink is ASSUMED: it is the Lean definition in Nstd/Path/Fs.lean and is compared with the real kernel (ext4/tmpfs under $TMPDIR) only through the snapshots of the correspondence run. Hypotheses of the unlink theorems: a plain path to the directory (its parent chain consists of real directories; links INSIDE the tree are arbitrary) and a well-formed world (names are names, no path stored twice, parents are directories) — the latter is proved for every history (wf_run) and additionally checked on every model state the run reaches; the model keeps the working directory and its ancestors (rmdir/rename of them are rejected), plain path (its parent chain consists of real directories; links INSIDE the tree are arbitrary). Only tested by the correspondence, not proved: Directory::read with pattern / dirsOnly / DT_UNKNOWN (model dirListPat; libc fnmatch is ASSUMED to behave as fnmatchM for patterns without '[' and '\\', other patterns are not run), exact removal by Directory::unlink when d_type is NOT reported, File::write(buffer,len) count, isOpen/close/flush/second open, getTempDirectory/getHomeDirectory, the time stamps of File::time, the harness-side fault interposition (sendfile, mkdir, readdir d_type). szWildMatch7 belongs to the _WIN32 branch: its TEXT is cut out of the current Directory.cpp and compiled into the harness; the model assumes toLowerCase(x) != toLowerCase(0) for name bytes x != 0. The assumed kernel splits path strings at '/' only (a backslash is part of a name; Directory::create as repaired by fix 0010 does the same on POSIX) and rmdir answers EINVAL/ENOTEMPTY for a last component '.'/'..'. Outside: permissions, d_type == DT_UNKNOWN file systems, hard links, files unlinked/renamed while open, concurrent modification, the other Windows branches, paths climbing above the scratch world, isExecutable, getcwd longer than PATH_MAX.",
         "design_ref": "DESIGN.md 3/C19",
     }
 }
-PROPS = ["Nstd.Path.Props", "Nstd.Path.FsProps", "Nstd.Path.Props2", "Nstd.Path.FsProps2"]
+PROPS = ["Nstd.Path.Props", "Nstd.Path.FsProps", "Nstd.Path.Props2", "Nstd.Path.FsProps2", "Nstd.Path.PropsStr"]
 LEAN_TARGETS = PROPS + ["drv_path"]
 DRIVER = "drv_path"
 SOURCES = ["path.cpp", C.REPO / "src/File.cpp", C.REPO / "src/Directory.cpp", C.REPO / "src/String.cpp",
@@ -327,6 +327,7 @@ def check(ctx):
         "lexical semantics: a path denotes (absolute?, number of leading '..', components); '..' above the root of an absolute path is kept (File::simplifyPath(\"/../a\") = \"/../a\" is what the library's unit test documents), symbolic links are not consulted",
         "file-system part: the POSIX semantics of the system calls is ASSUMED (Lean definitions in Nstd/Path/Fs.lean); no permission failures, readdir reports d_type, no concurrent modification, no hard links, no file unlinked/renamed while open",
         "lseek(fd of a directory, 0, SEEK_END) is non-negative (ext4/tmpfs); sendfile transfers the requested count unless the interposed fault says otherwise",
+        "readdir may report DT_UNKNOWN for any entry (oracle of the model; interposed in the harness: all entries / names ending in an odd byte); libc fnmatch(pattern, name, 0) behaves as the Lean definition fnmatchM for patterns without '[' and '\\'",
         "theorems about Directory::unlink / File::rename assume a well-formed world and (unlink) a plain path; every model state reached in the run is checked for well-formedness by the driver",
     ]
     proof_ok = C.proof_stage(ctx, PROPS, [DRIVER], leanchecker=(ctx.tier == "thorough"))
@@ -630,6 +631,19 @@ def fs_reference(hist, impl):
                         continue
                     if tree.get(q) != after.get(q):
                         bad = "failed Directory::unlink changed an entry outside the tree"
+                # "removes exactly the given tree": a plain path (real directories, no '.', '..', links) to an existing directory
+                # (not the working directory or above) must be removed by a recursive unlink, whatever d_type readdir reports
+                pth = unhx(t[1])
+                cs = [c for c in pth.split("/") if c]
+                cur = [] if pth.startswith("/") else ["s"]
+                plain = bool(cs)
+                for c in cs:
+                    cur = cur + [c]
+                    if c in (".", "..") or tree.get("/".join(cur)) != ("d",):
+                        plain = False
+                        break
+                if not bad and plain and t[2] == "1" and "/".join(cur) not in ("s", "") and not "s".startswith("/".join(cur) + "/"):
+                    bad = "recursive Directory::unlink of an existing plain directory failed"
         if not bad and op == "fspurge":
             rr = py_resolve(tree, unhx(t[1]), False)
             P = rr[1] if rr[0] == "found" else None
